@@ -222,3 +222,333 @@ Proof.
   rewrite unforge_public_key_len by lia.
   rewrite unforge_forge_signature by exact Hw. reflexivity.
 Qed.
+
+(* ========================================================================================== *)
+(* Part 2 — the text level agrees with the (kind, payload) level on well-formed values         *)
+
+Lemma find_enc_length_only t p p' tp : length p = length p' -> find_enc t p tp = find_enc t p' tp.
+Proof. intro H. unfold find_enc. rewrite H. reflexivity. Qed.
+
+Lemma domain_rows43 : domain_rows_ok table43 = true.
+Proof. vm_compute. reflexivity. Qed.
+
+(* base-58 text never contains '%' *)
+Lemma digit_of_pct : digit_of_char x25 = None.
+Proof. vm_compute. reflexivity. Qed.
+
+Lemma b58_enc_chars v : Forall (fun c => digit_of_char c <> None) (b58_enc v).
+Proof.
+  unfold b58_enc. apply Forall_app. split.
+  - apply Forall_forall. intros c Hc. apply repeat_spec in Hc. subst. vm_compute. discriminate.
+  - unfold b58_of_N. apply Forall_forall. intros c Hc. apply in_map_iff in Hc.
+    destruct Hc as [d [<- Hd]]. apply in_rev in Hd.
+    pose proof (lsf_digits_ok 58 ltac:(lia) (2 * length (lstrip x00 v)) (be_to_N (lstrip x00 v))) as Hok.
+    unfold digits_ok in Hok. rewrite Forall_forall in Hok.
+    rewrite digit_char_roundtrip by (apply Hok, Hd). discriminate.
+Qed.
+
+Lemma before_pct_no_pct s r :
+  Forall (fun c => digit_of_char c <> None) s -> before_pct (s ++ x25 :: r) = s /\ after_pct (s ++ x25 :: r) = Some r.
+Proof.
+  induction 1 as [|c s Hc Hs IH].
+  - split; reflexivity.
+  - cbn [app before_pct after_pct].
+    destruct (byte_eqb c x25) eqn:E.
+    + apply byte_eqb_spec in E. subst c. rewrite digit_of_pct in Hc. contradiction.
+    + destruct IH as [IH1 IH2]. rewrite IH1, IH2. split; reflexivity.
+Qed.
+
+Lemma before_pct_none s :
+  Forall (fun c => digit_of_char c <> None) s -> before_pct s = s /\ after_pct s = None.
+Proof.
+  induction 1 as [|c s Hc Hs IH].
+  - split; reflexivity.
+  - cbn [before_pct after_pct].
+    destruct (byte_eqb c x25) eqn:E.
+    + apply byte_eqb_spec in E. subst c. rewrite digit_of_pct in Hc. contradiction.
+    + destruct IH as [IH1 IH2]. rewrite IH1, IH2. split; reflexivity.
+Qed.
+
+Section TextLevel.
+  Variable sha256 : bytes -> bytes.
+  Hypothesis Hsha : sha_ok sha256.
+  Variable t : list row.
+  Hypothesis Htab : table_ok t = true.
+  Hypothesis Hdom : domain_rows_ok t = true.
+
+  (* the string of a value: which row produced it *)
+  Lemma text_inv p tp s :
+    base58_encode sha256 t p tp = Ok s ->
+    exists r rest, find_enc t p tp = Some r /\ In r t /\ tpre r = tp /\ plen r = length p /\
+                   s = b58check_enc sha256 (bpre r ++ p) /\ s = tp ++ rest.
+  Proof.
+    intro H. pose proof (any_prefix_and_length sha256 t Hsha Htab p tp s H) as [r0 [_ [_ [_ [_ Hpre]]]]].
+    unfold base58_encode in H. destruct (find_enc t p tp) as [r|] eqn:E; [|discriminate]. injection H as <-.
+    pose proof E as E'. unfold find_enc in E'. apply find_some in E'. destruct E' as [Hin Hpred].
+    apply andb_true_iff in Hpred. destruct Hpred as [Hl Ht]. apply Nat.eqb_eq in Hl. apply bytes_eqb_spec in Ht.
+    apply is_prefix_spec in Hpre. destruct Hpre as [rest Hrest].
+    exists r, rest. repeat split; auto.
+  Qed.
+
+  Lemma addr_row k : exists r, find_enc t (repeat x00 20) (addr_tpre k) = Some r /\
+                               length (bpre r) = match k with Txr1 => 4%nat | _ => 3%nat end.
+  Proof.
+    pose proof Hdom as Hd. unfold domain_rows_ok in Hd.
+    apply andb_true_iff in Hd. destruct Hd as [Hd _].
+    apply andb_true_iff in Hd. destruct Hd as [Hd _].
+    apply andb_true_iff in Hd. destruct Hd as [Hd _].
+    rewrite forallb_forall in Hd. specialize (Hd k).
+    assert (Hin : In k all_addr_kinds) by (destruct k; simpl; tauto).
+    apply Hd in Hin. unfold row_with in Hin.
+    destruct (find_enc t (repeat x00 20) (addr_tpre k)) as [r|]; [|discriminate].
+    exists r. split; [reflexivity|]. apply Nat.eqb_eq in Hin. exact Hin.
+  Qed.
+
+  Lemma key_row k : exists r, find_enc t (repeat x00 (key_len k)) (key_tpre k) = Some r /\ length (bpre r) = 4%nat.
+  Proof.
+    pose proof Hdom as Hd. unfold domain_rows_ok in Hd.
+    apply andb_true_iff in Hd. destruct Hd as [Hd _].
+    apply andb_true_iff in Hd. destruct Hd as [Hd _].
+    apply andb_true_iff in Hd. destruct Hd as [_ Hd].
+    rewrite forallb_forall in Hd. specialize (Hd k).
+    assert (Hin : In k all_key_kinds) by (destruct k; simpl; tauto).
+    apply Hd in Hin. unfold row_with in Hin.
+    destruct (find_enc t (repeat x00 (key_len k)) (key_tpre k)) as [r|]; [|discriminate].
+    exists r. split; [reflexivity|]. apply Nat.eqb_eq in Hin. exact Hin.
+  Qed.
+
+  (* every well-formed value has a Base58Check string *)
+  Lemma address_text_defined a : wf_address a -> exists s, address_text sha256 t a = Ok s.
+  Proof.
+    intro Hw. destruct a as [k h]. unfold wf_address in Hw. cbn [snd] in Hw.
+    unfold address_text, base58_encode. cbn [fst snd].
+    destruct (addr_row k) as [r [Hf _]].
+    rewrite (find_enc_length_only t h (repeat x00 20)) by (rewrite repeat_length; exact Hw).
+    rewrite Hf. eexists. reflexivity.
+  Qed.
+
+  Lemma public_key_text_defined k : wf_public_key k -> exists s, public_key_text sha256 t k = Ok s.
+  Proof.
+    intro Hw. destruct k as [kk p]. unfold wf_public_key in Hw. cbn [fst snd] in Hw.
+    unfold public_key_text, base58_encode. cbn [fst snd].
+    destruct (key_row kk) as [r [Hf _]].
+    rewrite (find_enc_length_only t p (repeat x00 (key_len kk))) by (rewrite repeat_length; exact Hw).
+    rewrite Hf. eexists. reflexivity.
+  Qed.
+
+  (* forge_address on the string of (k, h) is forge_address on (k, h) *)
+  Lemma forge_address_text_ok tz_only a s :
+    wf_address a -> address_text sha256 t a = Ok s ->
+    forge_address_text sha256 tz_only s = Ok (forge_address tz_only a).
+  Proof.
+    intros Hw Hs. destruct a as [k h]. unfold wf_address in Hw. cbn [snd] in Hw.
+    unfold address_text in Hs. cbn [fst snd] in Hs.
+    destruct (text_inv _ _ _ Hs) as [r [rest [Hf [Hin [Htp [Hpl [Henc Hrest]]]]]]].
+    destruct (addr_row k) as [r' [Hf' Hbl]].
+    rewrite (find_enc_length_only t h (repeat x00 20)) in Hf by (rewrite repeat_length; exact Hw).
+    rewrite Hf in Hf'. injection Hf' as <-.
+    unfold forge_address_text.
+    assert (Hdec : b58check_dec sha256 s = Some (bpre r ++ h)) by (rewrite Henc; apply b58check_dec_enc, Hsha).
+    rewrite Hdec, Hrest.
+    destruct k; cbn [addr_tpre] in *.
+    all: match goal with
+         | |- context [is_prefix ?p (?tp ++ ?rs)] =>
+             let b := eval vm_compute in (is_prefix p tp) in
+             replace (is_prefix p (tp ++ rs)) with b by reflexivity
+         end.
+    all: match goal with
+         | |- context [firstn ?n (?tp ++ ?rs)] =>
+             replace (firstn n (tp ++ rs)) with tp by reflexivity
+         end.
+    all: rewrite <- Hbl, skipn_app_exact.
+    all: destruct tz_only; reflexivity.
+  Qed.
+
+  (* the whole text-level round trip of an address or key hash *)
+  Lemma address_text_roundtrip tz_only a s :
+    wf_address a -> (tz_only = false \/ is_implicit (fst a) = true) ->
+    address_text sha256 t a = Ok s ->
+    exists d, forge_address_text sha256 tz_only s = Ok d /\ unforge_address_text sha256 t d = Ok s.
+  Proof.
+    intros Hw Hk Hs. exists (forge_address tz_only a). split.
+    - apply forge_address_text_ok; assumption.
+    - unfold unforge_address_text. destruct tz_only.
+      + destruct Hk as [Hk|Hk]; [discriminate|]. rewrite unforge_address_key_hash by assumption. exact Hs.
+      + rewrite unforge_forge_address by exact Hw. exact Hs.
+  Qed.
+
+  Lemma address_text_chars a s : address_text sha256 t a = Ok s -> Forall (fun c => digit_of_char c <> None) s.
+  Proof.
+    intro Hs. unfold address_text in Hs. apply encode_ok_inv in Hs.
+    destruct Hs as [r [_ [_ [_ ->]]]]. apply b58_enc_chars.
+  Qed.
+
+  Lemma forge_contract_text_ok c s :
+    wf_address (fst c) -> contract_text sha256 t c = Ok s ->
+    forge_contract_text sha256 s = Ok (forge_contract c).
+  Proof.
+    intros Hw Hs. destruct c as [a ep]. cbn [fst snd] in *.
+    unfold contract_text in Hs. cbn [fst snd] in Hs.
+    destruct (address_text sha256 t a) as [sa|] eqn:Ea; [|discriminate].
+    pose proof (address_text_chars a sa Ea) as Hch.
+    pose proof (forge_address_text_ok false a sa Hw Ea) as Hfa.
+    unfold forge_contract_text, forge_contract. cbn [fst snd].
+    destruct (bytes_eqb ep default_ep) eqn:Ed; injection Hs as <-.
+    - destruct (before_pct_none sa Hch) as [-> ->]. rewrite Hfa.
+      rewrite bytes_eqb_refl. reflexivity.
+    - destruct (before_pct_no_pct sa ep Hch) as [-> ->]. rewrite Hfa, Ed. reflexivity.
+  Qed.
+
+  Lemma unforge_contract_text_ok c :
+    wf_address (fst c) -> snd c <> [] ->
+    unforge_contract_text sha256 t (forge_contract c) = contract_text sha256 t c.
+  Proof.
+    intros Hw Hep. destruct c as [a ep]. cbn [fst snd] in *.
+    unfold unforge_contract_text, forge_contract, contract_text, unforge_address_text. cbn [fst snd].
+    pose proof (length_forge_address_false a Hw) as Hl.
+    destruct (bytes_eqb ep default_ep) eqn:Ed.
+    - rewrite app_nil_r, firstn_all2 by lia. rewrite unforge_forge_address by exact Hw.
+      destruct (address_text sha256 t a); [|reflexivity]. rewrite Hl. reflexivity.
+    - rewrite <- Hl at 1. rewrite firstn_app_exact, unforge_forge_address by exact Hw.
+      destruct (address_text sha256 t a); [|reflexivity].
+      rewrite app_length, Hl.
+      assert (Hlen : (22 <? 22 + length ep)%nat = true).
+      { apply Nat.ltb_lt. destruct ep; [contradiction | cbn [length]; lia]. }
+      rewrite Hlen. rewrite <- Hl, skipn_app_exact. reflexivity.
+  Qed.
+
+  Lemma forge_public_key_text_ok k s :
+    wf_public_key k -> public_key_text sha256 t k = Ok s ->
+    forge_public_key_text sha256 s = Ok (forge_public_key k).
+  Proof.
+    intros Hw Hs. destruct k as [kk p]. unfold wf_public_key in Hw. cbn [fst snd] in Hw.
+    unfold public_key_text in Hs. cbn [fst snd] in Hs.
+    destruct (text_inv _ _ _ Hs) as [r [rest [Hf [Hin [Htp [Hpl [Henc Hrest]]]]]]].
+    destruct (key_row kk) as [r' [Hf' Hbl]].
+    rewrite (find_enc_length_only t p (repeat x00 (key_len kk))) in Hf by (rewrite repeat_length; exact Hw).
+    rewrite Hf in Hf'. injection Hf' as <-.
+    unfold forge_public_key_text.
+    assert (Hdec : b58check_dec sha256 s = Some (bpre r ++ p)) by (rewrite Henc; apply b58check_dec_enc, Hsha).
+    rewrite Hdec, Hrest.
+    destruct kk; cbn [key_tpre] in *.
+    all: match goal with
+         | |- context [firstn ?n (?tp ++ ?rs)] =>
+             replace (firstn n (tp ++ rs)) with tp by reflexivity
+         end.
+    all: rewrite <- Hbl, skipn_app_exact; reflexivity.
+  Qed.
+
+  Lemma unforge_public_key_text_ok k :
+    wf_public_key k -> unforge_public_key_text sha256 t (forge_public_key k) = public_key_text sha256 t k.
+  Proof.
+    intro Hw. destruct k as [kk p]. unfold unforge_public_key_text, forge_public_key, public_key_text.
+    cbn [fst snd]. destruct kk; reflexivity.
+  Qed.
+
+  (* signatures and chain ids: forge_base58 is base58_decode (C09's round trip) and the readers
+     re-encode under sig / BLsig / Net *)
+  Lemma forge_signature_text_ok sg s :
+    signature_text sha256 t sg = Ok s -> forge_base58_text sha256 t s = Ok (forge_signature sg).
+  Proof. intro Hs. unfold forge_base58_text, forge_signature. eapply any_roundtrip; eauto. Qed.
+
+  Lemma unforge_signature_text_ok sg :
+    wf_signature sg ->
+    unforge_signature_text sha256 t (forge_signature sg) =
+    signature_text sha256 t ((match fst sg with BLsig => BLsig | _ => Sig end), snd sg).
+  Proof.
+    destruct sg as [k p]. unfold wf_signature, unforge_signature_text, forge_signature, signature_text.
+    cbn [fst snd]. intro Hl. destruct k; cbn [sig_len] in Hl; rewrite Hl; reflexivity.
+  Qed.
+
+  Lemma forge_chain_id_text_ok c s :
+    chain_id_text sha256 t c = Ok s -> forge_base58_text sha256 t s = Ok (forge_chain_id c).
+  Proof. intro Hs. unfold forge_base58_text, forge_chain_id. eapply any_roundtrip; eauto. Qed.
+
+  Lemma unforge_chain_id_text_ok c : unforge_chain_id_text sha256 t (forge_chain_id c) = chain_id_text sha256 t c.
+  Proof. reflexivity. Qed.
+End TextLevel.
+
+(* ---- closed forms for Properties/C10.v ---- *)
+Definition text_env (sha256 : bytes -> bytes) (t : list row) : Prop :=
+  sha_ok sha256 /\ table_ok t = true /\ domain_rows_ok t = true.
+
+Lemma text_address sha256 t : text_env sha256 t ->
+  forall tz_only a, wf_address a -> (tz_only = false \/ is_implicit (fst a) = true) ->
+  exists s, address_text sha256 t a = Ok s /\
+            forge_address_text sha256 tz_only s = Ok (forge_address tz_only a) /\
+            unforge_address_text sha256 t (forge_address tz_only a) = Ok s.
+Proof.
+  intros [Hs [Ht Hd]] tz_only a Hw Hk.
+  destruct (address_text_defined sha256 t Hd a Hw) as [s Es]. exists s. split; [exact Es|].
+  destruct (address_text_roundtrip sha256 Hs t Ht Hd tz_only a s Hw Hk Es) as [d [Hf Hu]].
+  pose proof (forge_address_text_ok sha256 Hs t Ht Hd tz_only a s Hw Es) as Hf'.
+  rewrite Hf' in Hf. injection Hf as <-. split; assumption.
+Qed.
+
+Lemma text_contract sha256 t : text_env sha256 t ->
+  forall c : contract, wf_address (fst c) -> snd c <> [] ->
+  exists s, contract_text sha256 t c = Ok s /\
+            forge_contract_text sha256 s = Ok (forge_contract c) /\
+            unforge_contract_text sha256 t (forge_contract c) = Ok s.
+Proof.
+  intros [Hs [Ht Hd]] c Hw Hep.
+  destruct (address_text_defined sha256 t Hd (fst c) Hw) as [sa Ea].
+  assert (Es : exists s, contract_text sha256 t c = Ok s).
+  { unfold contract_text. eexists. rewrite Ea. reflexivity. }
+  destruct Es as [s Es]. exists s. split; [exact Es|]. split.
+  - apply (forge_contract_text_ok sha256 Hs t Ht Hd c s Hw Es).
+  - rewrite unforge_contract_text_ok by assumption. exact Es.
+Qed.
+
+Lemma text_public_key sha256 t : text_env sha256 t ->
+  forall k, wf_public_key k ->
+  exists s, public_key_text sha256 t k = Ok s /\
+            forge_public_key_text sha256 s = Ok (forge_public_key k) /\
+            unforge_public_key_text sha256 t (forge_public_key k) = Ok s.
+Proof.
+  intros [Hs [Ht Hd]] k Hw.
+  destruct (public_key_text_defined sha256 t Hd k Hw) as [s Es]. exists s. split; [exact Es|]. split.
+  - apply (forge_public_key_text_ok sha256 Hs t Ht Hd k s Hw Es).
+  - rewrite unforge_public_key_text_ok by assumption. exact Es.
+Qed.
+
+(* a signature string in any notation: its optimized form is the raw bytes, and reading those
+   back gives the string of the same bytes in generic notation, which forges to the same bytes *)
+Lemma text_signature sha256 t : text_env sha256 t ->
+  forall sg s, wf_signature sg -> signature_text sha256 t sg = Ok s ->
+  forge_base58_text sha256 t s = Ok (snd sg) /\
+  exists s', unforge_signature_text sha256 t (snd sg) = Ok s' /\ forge_base58_text sha256 t s' = Ok (snd sg).
+Proof.
+  intros [Hs [Ht Hd]] sg s Hw Es.
+  pose proof (forge_signature_text_ok sha256 Hs t Ht sg s Es) as Hf. unfold forge_signature in Hf.
+  split; [exact Hf|].
+  pose proof (unforge_signature_text_ok sha256 t sg Hw) as Hu. unfold forge_signature in Hu.
+  set (g := ((match fst sg with BLsig => BLsig | _ => Sig end), snd sg)) in *.
+  assert (Hg : exists s', signature_text sha256 t g = Ok s').
+  { unfold signature_text, base58_encode. cbn [fst snd].
+    pose proof Hd as Hd'. unfold domain_rows_ok in Hd'.
+    apply andb_true_iff in Hd'. destruct Hd' as [Hd' _].
+    apply andb_true_iff in Hd'. destruct Hd' as [_ Hd'].
+    rewrite forallb_forall in Hd'.
+    destruct sg as [k p]. unfold wf_signature in Hw. cbn [fst snd] in *.
+    assert (Hk : In (match k with BLsig => BLsig | _ => Sig end) all_sig_kinds) by (destruct k; simpl; tauto).
+    apply Hd' in Hk.
+    assert (Hl : length p = sig_len (match k with BLsig => BLsig | _ => Sig end)) by (destruct k; exact Hw).
+    rewrite (find_enc_length_only t p (repeat x00 (sig_len (match k with BLsig => BLsig | _ => Sig end))))
+      by (rewrite repeat_length; exact Hl).
+    destruct (find_enc t _ _); [eexists; reflexivity | discriminate]. }
+  destruct Hg as [s' Es']. exists s'. rewrite Hu. split; [exact Es'|].
+  pose proof (forge_signature_text_ok sha256 Hs t Ht g s' Es') as Hf'. exact Hf'.
+Qed.
+
+Lemma text_chain_id sha256 t : text_env sha256 t ->
+  forall c s, chain_id_text sha256 t c = Ok s ->
+  forge_base58_text sha256 t s = Ok c /\ unforge_chain_id_text sha256 t c = Ok s.
+Proof.
+  intros [Hs [Ht Hd]] c s Es. split.
+  - apply (forge_chain_id_text_ok sha256 Hs t Ht c s Es).
+  - exact Es.
+Qed.
+
+Lemma text_env43 sha256 : sha_ok sha256 -> text_env sha256 table43.
+Proof. intro H. split; [exact H|]. split; [exact table43_ok | exact domain_rows43]. Qed.
